@@ -25,7 +25,8 @@ Definition oid := nat.   (* allocation number of an optimizer object *)
 Inductive tree :=
 | TSearch (q : qid) (o : oid) (k : nat)   (* trial number k of HyperOptimizer object o, built from the inputs of q *)
 | TDirect (q : qid)                       (* ContractionTree.from_path(inputs of q, path of a stateless path function run on q) *)
-| TRecon (q : qid) (src : qid).           (* _reconstruct_tree(inputs of q, cache entry whose path was found for src) *)
+| TRecon (q : qid) (src : qid).           (* _reconstruct_tree(inputs of q, cache entry whose path was found for src);
+                                             also: the bare path of such an entry, handed to the asker of q *)
 
 Definition tree_owner (t : tree) : qid :=
   match t with TSearch q _ _ => q | TDirect q => q | TRecon q _ => q end.
@@ -93,7 +94,8 @@ Record config := mkC {
   c_mode : mode;
   c_ow : overwrite;        (* ReusableOptimizer(overwrite=...) *)
   c_cache_only : bool;     (* ReusableOptimizer(cache_only=...) *)
-  c_more : nat             (* max_repeats - 1 *)
+  c_more : nat;            (* max_repeats - 1 *)
+  c_call : bool            (* queries are asked through __call__ (a path is returned) instead of search *)
 }.
 
 Record oracle := mkO {
@@ -240,8 +242,11 @@ Definition step_pc (cfg : config) (orc : oracle) (st : state) (th : thread) : st
       | _, _ => (st1, set_pc th (PRCacheSet q ri con))
       end
   | PRCacheSet q ri con =>
-      (upd_r st ri (fun r => mkR (r_slots r) (aset (o_fp orc q) con (r_cache r))),
-       set_pc th (PRFetch q ri))
+      let st1 := upd_r st ri (fun r => mkR (r_slots r) (aset (o_fp orc q) con (r_cache r))) in
+      if c_call cfg then
+        (* __call__: `return con["path"]` -- the path of the entry just stored, applied to q *)
+        (st1, finish th q (Some (TRecon q (e_src con))))
+      else (st1, set_pc th (PRFetch q ri))
   | PRCacheOld q ri con =>
       match nth_error (rheap st) ri with
       | None => (st, finish th q None)
